@@ -3,6 +3,9 @@ import ChythonModel.Spec.C16Deleted
 import ChythonModel.Proofs.C16Deleted
 import ChythonModel.Proofs.C16Patcher
 import ChythonModel.Proofs.C16Overlap
+import ChythonModel.Proofs.C16Union
+import ChythonModel.Model.C16Worklist
+import ChythonModel.Proofs.C16Worklist
 /-!
 # C16 — template application edits exactly what the template names
 
@@ -13,6 +16,7 @@ Theorems about the executable model `Model/C16Patcher.lean` (the functions `Driv
 -/
 namespace ChythonModel.Props.C16
 open ChythonModel.Model ChythonModel.Model.C16 ChythonModel.Spec.C16 ChythonModel.Proofs.C16 ChythonModel.Proofs.C16P ChythonModel.Proofs.C16O
+open ChythonModel.Proofs.C16U
 
 /-- **get_deleted_exact** (full statement, proved). For every undirected graph, every match and every iteration order of
 the deleted set and of the neighbour dicts: the atoms `_get_deleted` returns are exactly the matched atoms absent from
@@ -641,6 +645,177 @@ example : (match fixMappingOverlap
        ⟨[(1, {z := 6}), (2, {z := 7})], [(1, [(2, {order := 1})]), (2, [(1, {order := 1})])]⟩] [[], [2, 1]] with
     | .ok out => out.map (·.ids) == [[1, 2], [4, 3]]
     | .error _ => false) = true := by decide
+
+/-! ## `Graph.union` — `a | b` = `a.union(b, remap=True)` (`reduce(or_, chosen)` of `_single_stage`) and `a.union(b)`
+
+`union a b`, `unionR flag a b`, `unionAll` are the functions the driver runs (`union2`, `union`, `stage`).
+`Mol.WF` is the executable well-formedness test the driver applies to both operands. -/
+
+/-- **union of well-formed graphs**: for every pair of well-formed graphs `a | b` does not raise, and there is a renumbering
+`f` of the second operand such that
+* `f` is injective on `b`'s atoms and its image avoids `a`'s numbers (the two copies are disjoint);
+* numbering exactly as the code does it: when a number occurs in both operands, the `i`-th atom of `b` (dict order)
+  becomes `max(a) + 1 + i` — *every* atom of `b`, not only the colliding ones; when no number is shared `f` is the identity;
+* the result lists `a`'s atoms (numbers and dict order kept) followed by `b`'s atoms renumbered, all numbers distinct;
+* every atom and every bond of `a` is in the result unchanged, and an atom of `a` has no other bond (`bond? n c` is `a`'s for
+  every `c`);
+* `f` is an isomorphism of `b` onto the second part: same atom, and the bond between two images is the bond of `b`;
+* no bond joins the two copies (either direction), and an image has no bond leaving the image of `b`. -/
+theorem union_isomorphic_disjoint_copies (a b : Mol) (ha : a.WF = true) (hb : b.WF = true) :
+    ∃ u f, union a b = .ok u ∧
+      (∀ k1 ∈ b.ids, ∀ k2 ∈ b.ids, f k1 = f k2 → k1 = k2) ∧
+      (∀ k ∈ b.ids, f k ∉ a.ids) ∧
+      ((∃ n, n ∈ a.ids ∧ n ∈ b.ids) → ∀ i (hi : i < b.ids.length), f b.ids[i] = maxOf a.ids + 1 + i) ∧
+      ((∀ n ∈ a.ids, n ∉ b.ids) → ∀ k, f k = k) ∧
+      (u.ids = a.ids ++ b.ids.map f ∧ u.ids.Nodup) ∧
+      (∀ n ∈ a.ids, u.atoms.lookup n = a.atoms.lookup n) ∧
+      (∀ n ∈ a.ids, ∀ c, u.bond? n c = a.bond? n c) ∧
+      (∀ k ∈ b.ids, u.atoms.lookup (f k) = b.atoms.lookup k) ∧
+      (∀ k ∈ b.ids, ∀ k' ∈ b.ids, u.bond? (f k) (f k') = b.bond? k k') ∧
+      (∀ n ∈ a.ids, ∀ k ∈ b.ids, u.bond? n (f k) = none ∧ u.bond? (f k) n = none) ∧
+      (∀ k ∈ b.ids, ∀ c, c ∉ b.ids.map f → u.bond? (f k) c = none) := by
+  obtain ⟨u, hu, _⟩ := union_total_wf ha hb
+  have hbnd : b.ids.Nodup := (wf_sound hb).1
+  obtain ⟨hinj, hfresh, hnum⟩ := shiftOf_spec a b hbnd
+  obtain ⟨h1, h2, h3, h4, h5, h6, h7⟩ := union_spec ha hb hu
+  refine ⟨u, shiftOf a b, hu, hinj, hfresh, ?_, ?_, h1, h2, h3, h4, h5, h6, h7⟩
+  · intro hc
+    rw [if_pos ((collide_iff a b).2 hc)] at hnum
+    exact hnum
+  · intro hd
+    have : ¬ (a.ids.any b.ids.contains = true) := by
+      intro hc
+      obtain ⟨n, h1, h2⟩ := (collide_iff a b).1 hc
+      exact hd n h1 h2
+    rw [if_neg this] at hnum
+    exact hnum
+
+/-- the union of two well-formed graphs is a well-formed graph (unique numbers, adjacency keyed by the atoms, symmetric,
+no loops) — so `reduce(or_, chosen)` hands `_patcher` a structure satisfying the hypotheses of the frame theorems -/
+theorem union_result_wf (a b u : Mol) (ha : a.WF = true) (hb : b.WF = true) (h : union a b = .ok u) : u.WF = true :=
+  union_wf ha hb h
+
+/-- `reduce(or_, chosen)` over any non-empty list of well-formed molecules succeeds with a well-formed result;
+over the empty list it raises `TypeError` -/
+theorem unionAll_total_wf (ms : List Mol) (h : ∀ m ∈ ms, m.WF = true) :
+    (ms = [] ∧ ∃ e, unionAll ms = .error e) ∨ (ms ≠ [] ∧ ∃ u, unionAll ms = .ok u ∧ u.WF = true) := by
+  cases ms with
+  | nil => exact Or.inl ⟨rfl, _, rfl⟩
+  | cons m tl =>
+    refine Or.inr ⟨by simp, ?_⟩
+    simp only [unionAll]
+    have : ∀ (l : List Mol) (acc : Mol), acc.WF = true → (∀ x ∈ l, x.WF = true) →
+        ∃ u, l.foldl (fun acc x => match acc with
+          | .error e => .error e
+          | .ok u => union u x) (Except.ok acc : Except PyErr Mol) = .ok u ∧ u.WF = true := by
+      intro l
+      induction l with
+      | nil => intro acc hacc _; exact ⟨acc, rfl, hacc⟩
+      | cons x xs ih =>
+        intro acc hacc hl
+        obtain ⟨u, hu, huw⟩ := union_total_wf hacc (hl x (by simp))
+        simp only [List.foldl_cons, hu]
+        exact ih u huw (fun y hy => hl y (List.mem_cons_of_mem _ hy))
+    exact this tl m (h m (by simp)) (fun x hx => h x (List.mem_cons_of_mem _ hx))
+
+/-- **`remap=False` precondition and its error**: `a.union(b)` raises `MappingError` exactly when some number occurs in both
+operands — for any operands; `a | b` never raises on well-formed operands; and when the numbers are disjoint both give
+the same result (which by `union_isomorphic_disjoint_copies` is the unrenumbered disjoint union) -/
+theorem union_strict_precondition (a b : Mol) :
+    (unionR false a b = .error (.mappingError "mapping of graphs is not disjoint") ↔ ∃ n, n ∈ a.ids ∧ n ∈ b.ids) ∧
+    ((∀ n ∈ a.ids, n ∉ b.ids) → unionR false a b = unionR true a b) ∧
+    (a.WF = true → b.WF = true → ∀ flag, (∃ e, unionR flag a b = .error e) ↔ flag = false ∧ ∃ n, n ∈ a.ids ∧ n ∈ b.ids) :=
+  ⟨by rw [unionR_false]; exact unionStrict_error_iff' a b,
+   fun h => by rw [unionR_false, unionR_true]; exact unionStrict_eq_union h,
+   fun ha hb flag => unionR_error_iff ha hb flag⟩
+
+/-- non-trivial instances: C1–O2 united with C1–N2 (all numbers collide): the second becomes 3, 4 with its bond; united with
+C5–N6 (disjoint): numbers kept; `remap=False` raises in the first case only -/
+def exU1 : Mol := ⟨[(1, {z := 6}), (2, {z := 8})], [(1, [(2, {order := 1})]), (2, [(1, {order := 1})])]⟩
+def exU2 : Mol := ⟨[(2, {z := 6}), (1, {z := 7})], [(2, [(1, {order := 2})]), (1, [(2, {order := 2})])]⟩
+def exU3 : Mol := ⟨[(5, {z := 6}), (6, {z := 7})], [(5, [(6, {order := 2})]), (6, [(5, {order := 2})])]⟩
+example : exU1.WF = true ∧ exU2.WF = true ∧ exU3.WF = true := by decide
+example : (match union exU1 exU2 with
+    | .ok u => u.ids == [1, 2, 3, 4] && u.bond? 3 4 == some {order := 2} && u.bond? 1 2 == some {order := 1}
+               && u.bond? 2 3 == none && u.atoms.lookup 3 == some {z := 6}
+    | .error _ => false) = true := by decide
+example : (match union exU1 exU3 with
+    | .ok u => u.ids == [1, 2, 5, 6] && u.bond? 5 6 == some {order := 2}
+    | .error _ => false) = true := by decide
+example : unionR false exU1 exU2 = .error (.mappingError "mapping of graphs is not disjoint") := by rfl
+example : unionR false exU1 exU3 = unionR true exU1 exU3 := by rfl
+
+/-! ## the exhaustive mode (`one_shot=False`) of `Reactor.__call__`: FIFO worklist with string de-duplication
+
+`C16W.worklist S limit fuel init` is the literal loop (`deque`, `seen`, depth counter, `polymerise_limit`) over an abstract
+single-step system `S : Sys σ ρ κ` (`step` = reactions of one queue item in generator order, `key` = `str(r)`, `stop` = the
+"ambiguous multicomponent" flag, `succ` = items appended for a reaction); `init` = the initial queue. The driver runs it
+(op `worklist`) on the step system recorded from the real `_single_stage`. -/
+section worklist
+open ChythonModel.Model.C16W ChythonModel.Proofs.C16W
+variable {σ ρ κ : Type} [DecidableEq κ]
+
+/-- **termination** (no fuel in the statement's conclusion): the loop stops for every finitely-branching step system —
+`polymerise_limit` bounds the depth. With at least `work` fuel (the number of queue items processed level by level) it
+returns the level-by-level result `worklistBfs`, which is defined by structural recursion -/
+theorem worklist_terminates (S : Sys σ ρ κ) (limit : Nat) (init : List σ) (fuel : Nat)
+    (h : work S limit (max limit 1) 0 init [] ≤ fuel) :
+    worklist S limit fuel init = some (worklistBfs S limit init) :=
+  loop_eq_bfs S limit (max limit 1) 0 init [] fuel (by omega) (by omega) h
+
+/-- **fuel independence**: whatever fuel the loop finishes with, the result is the same list -/
+theorem worklist_fuel_independent (S : Sys σ ρ κ) (limit : Nat) (init : List σ) (fuel : Nat) (out : List ρ)
+    (h : worklist S limit fuel init = some out) : out = worklistBfs S limit init :=
+  loop_some_eq_bfs S limit (max limit 1) 0 init [] fuel out (by omega) (by omega) h
+
+/-- **each key reported once**: the `str(r)` of the yielded reactions are pairwise distinct -/
+theorem worklist_reports_each_key_once (S : Sys σ ρ κ) (limit : Nat) (init : List σ) (fuel : Nat) (out : List ρ)
+    (h : worklist S limit fuel init = some out) : (out.map S.key).Nodup := by
+  rw [worklist_fuel_independent S limit init fuel out h]
+  exact (bfs_keys_nodup_aux S limit _ 0 init []).1
+
+/-- **soundness**: every yielded reaction is produced by a queue item that the un-deduplicated process reaches within the
+depth limit (`ReachItem`) -/
+theorem worklist_sound (S : Sys σ ρ κ) (limit : Nat) (init : List σ) (fuel : Nat) (out : List ρ)
+    (h : worklist S limit fuel init = some out) :
+    ∀ r ∈ out, ∃ d it, ReachItem S limit init d it ∧ r ∈ S.step it := by
+  rw [worklist_fuel_independent S limit init fuel out h]
+  exact bfs_sound_aux S limit init _ 0 init [] (fun it hit => ReachItem.base hit)
+
+/-- **completeness up to the de-duplication key**: if the key is a congruence of the step system (`Congr`: reactions with the
+same `str` have the same ambiguity flag and equivalent continuations), then for every reaction the un-deduplicated process
+can produce within the depth limit a reaction with the same key is yielded -/
+theorem worklist_complete_up_to_key (S : Sys σ ρ κ) (E : σ → σ → Prop) (hC : Congr S E) (limit : Nat) (init : List σ)
+    (fuel : Nat) (out : List ρ) (h : worklist S limit fuel init = some out) :
+    ∀ d it r, ReachItem S limit init d it → r ∈ S.step it → ∃ r' ∈ out, S.key r' = S.key r := by
+  rw [worklist_fuel_independent S limit init fuel out h]
+  intro d it r hreach hr
+  obtain ⟨hd, htail⟩ := reach_tail hreach
+  obtain ⟨it0, h0, ht0⟩ := htail 0 _ (Tail.here hr)
+  have := bfs_complete_aux hC limit (max limit 1) 0 init [] (by intro _ _ _ hk; simp at hk) d
+    (by omega) (by omega) it0 h0 _ ht0
+  rcases this with h | h
+  · simp at h
+  · obtain ⟨r', hr', hk⟩ := List.mem_map.1 h
+    exact ⟨r', hr', hk⟩
+
+/-- **reported set = reachable set up to the key**, each key once -/
+theorem worklist_reports_reachable_set (S : Sys σ ρ κ) (E : σ → σ → Prop) (hC : Congr S E) (limit : Nat) (init : List σ)
+    (fuel : Nat) (out : List ρ) (h : worklist S limit fuel init = some out) :
+    (out.map S.key).Nodup ∧
+    ∀ k, k ∈ out.map S.key ↔ ∃ d it r, ReachItem S limit init d it ∧ r ∈ S.step it ∧ S.key r = k := by
+  refine ⟨worklist_reports_each_key_once S limit init fuel out h, ?_⟩
+  intro k
+  constructor
+  · intro hk
+    obtain ⟨r, hr, rfl⟩ := List.mem_map.1 hk
+    obtain ⟨d, it, h1, h2⟩ := worklist_sound S limit init fuel out h r hr
+    exact ⟨d, it, r, h1, h2, rfl⟩
+  · rintro ⟨d, it, r, h1, h2, rfl⟩
+    obtain ⟨r', hr', hk⟩ := worklist_complete_up_to_key S E hC limit init fuel out h d it r h1 h2
+    exact List.mem_map.2 ⟨r', hr', hk⟩
+
+end worklist
 
 /-- the executable well-formedness test the driver applies to every structure (`Mol.WF`: unique keys, adjacency keyed by
 the atoms, symmetric with the same bond on both sides, no loops) implies the hypotheses of the frame theorems, and the
